@@ -11,7 +11,7 @@ from luqum.exceptions import ParseError
 
 POOL = ["a", " a  OR b ", "a AND", "(a", "a^2.5 b~ \"c d\"~3", "f:(x y)", "[1 TO", "[1 TO 2]", "a:b:c", "\\", "",
         "  ", "a ^", "'", "a OR", "NOT", "TO", "<=3 >x", "+a -b", "a~1.2.3", "\"unterminated", "/re/ x", "a)b",
-        "\t-\tx\n", "~", "x^.", "{a TO b]", "a AND b OR c d", "é　ü", "a\\ b"]
+        "\t-\tx\n", "~", "x^.", "{a TO b]", "a AND b OR c d", "é　ü", "a\\ b", "[a %d]", "x:[10% 20%]", "TO~2", "TO:x", "price:[10 TO", "{a b", "<TO"]
 
 
 def dump(t):
